@@ -5,6 +5,7 @@ From DH Require Model.Qcow2 Proofs.Qcow2 Spec.Qcow2.
 From DH Require Import Base.Plan Base.Table Model.Chain Proofs.Chain Proofs.Layers
   Model.Vdi Proofs.Vdi Model.Hds Proofs.Hds Model.Vhdx Proofs.Vhdx Proofs.VhdxPartial Proofs.VhdxLayer
   Model.OpenParent Proofs.OpenParent.
+From DH Require Model.Vmdk Proofs.Vmdk Proofs.VmdkLayer.
 Open Scope Z_scope.
 
 (* 1. Any chain of layers, of any depth: every byte reads from the topmost layer that holds it,
@@ -51,6 +52,22 @@ Theorem C07_qcow2_backing_chain :
   chain_read (map qcow2_layer ims) 0 off n = Ok (map (chain_src (map qcow2_layer ims) 0) (zseq off n)).
 Proof. exact qcow2_chain_correct. Qed.
 Print Assumptions C07_qcow2_backing_chain.
+
+(* VMDK delta links (hosted sparse / COWD / SE-sparse, compressed or not, any grain and table size, any
+   table content): a chain of any depth, at sector granularity (the unit of VMDK.read_sectors) *)
+Theorem C07_vmdk_delta_chain :
+  forall cap (links : list (Model.Vmdk.vfile * Model.Vmdk.sparse)),
+  Forall (fun fs => Proofs.Vmdk.wf_sparse (fst fs) (snd fs) /\ Model.Vmdk.sp_capacity (snd fs) = cap) links ->
+  forall off n, 0 <= off -> 0 <= n -> off + n <= cap * 512 -> off mod 512 = 0 -> n mod 512 = 0 ->
+  chain_read (map Proofs.VmdkLayer.vmdk_layer links) 0 off n =
+  Ok (map (chain_src (map Proofs.VmdkLayer.vmdk_layer links) 0) (zseq off n)).
+Proof. exact Proofs.VmdkLayer.vmdk_chain_correct. Qed.
+Print Assumptions C07_vmdk_delta_chain.
+
+Example C07_vmdk_nonvacuous_hosted : Proofs.Vmdk.wf_sparse Proofs.Vmdk.ex_file Proofs.Vmdk.ex_sparse.
+Proof. exact Proofs.Vmdk.ex_sparse_wf. Qed.
+Example C07_vmdk_nonvacuous_se : Proofs.Vmdk.wf_sparse Proofs.Vmdk.ex_se_file Proofs.Vmdk.ex_se_sparse.
+Proof. exact Proofs.Vmdk.ex_se_wf. Qed.
 
 (* any byte-granular reader with an exact pointwise theorem whose parent references stay at the same guest
    offset is a layer (this is how further formats plug into the chain theorem) *)
